@@ -1,2 +1,64 @@
-(* placeholder: theorems being added *)
-From DC Require Import Model.Base Model.MSpace.
+(* C04 - The mutation space is exactly the set of sequences the hard constraints allow.
+   (a) from_constraints is EXACT: a sequence of the right length is a member of the space iff it
+       satisfies every restriction choice it was built from (merge_with keeps exactly the variants
+       compatible with all overlapping choices; extract_varying_region is exact); the space is
+       well-formed; "unsolvable" (a choice without variant) iff no sequence satisfies them all;
+   (b) per class, restrict_nucleotides() is the class's documented predicate: tied to the code by the
+       correspondence on generated constraint sets and decided by brute force over all 4^L sequences
+       (membership vs evaluate().passes), not by a Coq theorem;
+   (c) the initial sequence ends in the space (constrain_sequence, C15). *)
+From Coq Require Import ZArith Bool List Lia Sorting.Sorted Permutation.
+From DC Require Import Model.Base Model.Loc Model.MSpace Proofs.MSpaceDefs Proofs.MSpaceA Proofs.MSpaceD.
+Import ListNotations.
+Open Scope Z_scope.
+
+Theorem C04_space_is_exactly_what_the_restrictions_allow : forall s rs t,
+  Forall (wf_restriction (zlen s)) rs -> zlen t = zlen s ->
+  (member (from_constraints s rs) t <-> Forall (fun r => holds r t) rs).
+Proof. exact from_constraints_exact. Qed.
+Print Assumptions C04_space_is_exactly_what_the_restrictions_allow.
+
+Theorem C04_space_is_well_formed : forall s rs,
+  Forall (wf_restriction (zlen s)) rs ->
+  wf_space (from_constraints s rs) /\
+  (forall c, In c (choices_list (from_constraints s rs)) -> cend c <= zlen s).
+Proof. exact from_constraints_wf. Qed.
+Print Assumptions C04_space_is_well_formed.
+
+Theorem C04_unsolvable_iff_no_sequence_satisfies_all : forall s rs,
+  Forall (wf_restriction (zlen s)) rs ->
+  ((exists c, In c (choices_list (from_constraints s rs)) /\ cvariants c = []) <->
+   ~ (exists t, zlen t = zlen s /\ Forall (fun r => holds r t) rs)).
+Proof. exact unsolvable_iff_no_sequence. Qed.
+Print Assumptions C04_unsolvable_iff_no_sequence_satisfies_all.
+
+Theorem C04_extract_varying_region_is_exact : forall c t,
+  wf_choice c -> cend c <= zlen t ->
+  (holds c t <-> Forall (fun p => holds p t) (extract_varying_region c)).
+Proof. exact extract_varying_region_exact. Qed.
+Print Assumptions C04_extract_varying_region_is_exact.
+
+(* constrain_sequence raises "unsolvable" exactly when some choice has no variant; otherwise the
+   initial sequence is moved into the space *)
+Theorem C04_initial_sequence_ends_in_the_space : forall ms s r s' r',
+  wf_choices ms -> (forall c, In c (choices_list ms) -> cend c <= zlen s) ->
+  constrain_sequence ms s r = COk s' r' -> member ms s' /\ zlen s' = zlen s.
+Proof.
+  intros ms s r s' r' Hwf Hfit H. destruct (constrain_sequence_spec ms s r s' r' Hwf Hfit H) as (Hm & Hl & _).
+  split; assumption.
+Qed.
+Print Assumptions C04_initial_sequence_ends_in_the_space.
+
+Theorem C04_unsolvable_error_exactly_for_empty_choices : forall ms s r a b,
+  constrain_sequence ms s r = CUnsolvable a b ->
+  exists c, In c (choices_list ms) /\ cvariants c = [] /\ cstart c = a /\ cend c = b.
+Proof. exact constrain_no_unsolvable. Qed.
+Print Assumptions C04_unsolvable_error_exactly_for_empty_choices.
+
+(* Non-vacuity: two overlapping codon-like restrictions *)
+Example C04_ex :
+  map (fun c => (cstart c, cend c, cvariants c))
+      (choices_list (from_constraints [nA; nC; nG; nT] [mkChoice 0 3 [[nA; nC; nG]; [nA; nC; nA]] false;
+                                                          mkChoice 2 4 [[nG; nT]; [nA; nA]] false]))
+  = [(0, 2, [[nA; nC]]); (2, 4, [[nG; nT]; [nA; nA]])].
+Proof. vm_compute. reflexivity. Qed.
